@@ -3,7 +3,7 @@ import json, os
 import numpy as np
 import impl, cases, proto
 from gen import rng_for
-from .common import tolist, confusable, fresh, bits_equal
+from .common import tolist, confusable, fresh, bits_equal, history_differs
 
 LEAN = "PystogVerif.Props.C16"
 NCORR = {"quick": 2, "thorough": 20}
@@ -129,17 +129,14 @@ def evaluate(case):
                 c2 = confusable(a)
                 prim.append(c2 if c2 is not None else a * 1.37 + 0.1)
         try:
+            primers = [(name, prim, kw), (name, _mk(case), kw)]
+            if cls in ("Transformer", "FourierFilter"):
+                # the same call with every transform option switched on (options / damped tables must not stick to the instance)
+                primers.append((name, _mk(case), dict(kw, lorch=True, OmittedXrangeCorrection=True)))
             with np.errstate(all="ignore"):
-                ref = getattr(fresh(cls), name)(*_mk(case), **kw)
-                used = fresh(cls)
-                for pa in (prim, _mk(case)):
-                    try:
-                        getattr(used, name)(*pa, **kw)
-                    except Exception:  # noqa: BLE001
-                        pass
-                got = getattr(used, name)(*_mk(case), **kw)
-            if not bits_equal(tuple(ref) if isinstance(ref, tuple) else ref, tuple(got) if isinstance(got, tuple) else got):
-                fails.append(f"{entry}: result depends on earlier calls of the same instance (look-alike grids with the same length and end points)")
+                if history_differs(cls, name, _mk(case), kw, primers):
+                    fails.append(f"{entry}: result depends on earlier calls of the same instance (look-alike grids with the same length and "
+                                 "end points, or the same call with other options)")
         except Exception as ex:  # noqa: BLE001
             fails.append(f"{entry}: raises {type(ex).__name__} on a fresh instance where the shared instance succeeded")
     if base[0] == "ok":
